@@ -42,6 +42,9 @@ var longStrings = []string{k1024[:1023], k1024, k1024 + "a", k1024 + "b", k1024 
 
 var LongStringsAll = append(append([]string{}, longStrings...), q8192, q8192+"x", q8192+"y", q8192[:8191])
 
+// EdgeValues returns the values whose key encodings end in 0xFF / 0x00 bytes (and their neighbours).
+func EdgeValues() []any { return append([]any(nil), edgeValues...) }
+
 type Profile struct {
 	Kind   int
 	Absent int // percent
